@@ -96,6 +96,10 @@ pub fn process_file(
         return Err(ErrorLoc::new(prog.loc(), err));
     }
 
+    if let Err(err) = prog.flush() {
+        return Err(ErrorLoc::new(Loc::nil(), err));
+    }
+
     Ok(())
 }
 
